@@ -26,25 +26,26 @@ class Task:
     """one shard: explore harness `fn` of module `mod` with `params` in number model `model`"""
 
     def __init__(self, mod, fn, params=None, model="R", witness_every=1, twin=False,
-                 max_paths=None, name=None, weight=1):
+                 max_paths=None, name=None, weight=1, shards=1):
         self.mod, self.fn, self.params, self.model = mod, fn, params or {}, model
         self.witness_every, self.twin, self.max_paths = witness_every, twin, max_paths
         self.name = name or fn
         self.weight = weight
+        self.shards = shards
 
     def key(self):
         return "%s:%s" % (self.name, json.dumps(self.params, sort_keys=True, default=str))
 
 
 def _work(args):
-    mod, fn, params, model, witness_every, twin, max_paths, seed, name = args
+    mod, fn, params, model, witness_every, twin, max_paths, seed, name, shard = args
     from . import symx
     t0 = time.time()
     try:
         m = importlib.import_module(mod)
         h = getattr(m, fn)
         res = symx.explore(h, params, model=model, seed=seed, witness_every=witness_every,
-                           twin=twin, max_paths=max_paths, name=name)
+                           twin=twin, max_paths=max_paths, name=name, shard=shard)
         return {
             "name": name, "fn": fn, "params": params, "model": model, "twin": twin,
             "stats": res.stats.as_dict(), "violations": res.violations,
@@ -67,8 +68,16 @@ def _work(args):
 def run_tasks(tasks, seed=0, nproc=None):
     nproc = nproc or NPROC
     tasks = sorted(tasks, key=lambda t: -t.weight)  # heavy shards first
-    args = [(t.mod, t.fn, t.params, t.model, t.witness_every, t.twin, t.max_paths, seed, t.name)
-            for t in tasks]
+    args = []
+    for t in tasks:
+        if t.shards > 1:
+            depth = max(3, (t.shards - 1).bit_length() + 3)
+            for i in range(t.shards):
+                args.append((t.mod, t.fn, t.params, t.model, t.witness_every, t.twin, t.max_paths,
+                             seed, t.name, (i, t.shards, depth)))
+        else:
+            args.append((t.mod, t.fn, t.params, t.model, t.witness_every, t.twin, t.max_paths, seed,
+                         t.name, None))
     if nproc <= 1 or len(args) <= 1:
         return [_work(a) for a in args]
     ctx = mp.get_context("spawn")
